@@ -34,6 +34,7 @@ def mustReject : Nat → List Nat → Option String
 
 def rejectMonitor (single : Bool) (b : List Nat) (impl : String) : List String :=
   if impl == "err" then [] else
+  if impl == "panic" then ["rejected_with_error_not_panic"] else
   match mustReject (if single then 1 else b.length + 1) b with
   | some c => [c]
   | none => []
